@@ -236,14 +236,14 @@ Lemma depth_129_encodes_but_is_rejected :
   exists b, enc v = Ok b /\ decode b = Err EDepth /\ decode_nb b = Err EDepth.
 Proof.
   cbv zeta. split; [vm_compute; reflexivity|]. split; [vm_compute; reflexivity|].
-  eexists. split; [vm_compute; reflexivity|]. split; vm_compute; reflexivity.
+  eexists. split; [vm_compute; reflexivity|]. split; [vm_compute; reflexivity|vm_compute; reflexivity].
 Qed.
 
 Lemma depth_128_round_trips :
   let v := nest 128 (VInt 0) in
   wf_value v = true /\ exists b, enc v = Ok b /\ decode b = Ok v.
 Proof.
-  cbv zeta. split; [vm_compute; reflexivity|]. eexists. split; vm_compute; reflexivity.
+  cbv zeta. split; [vm_compute; reflexivity|]. eexists. split; [vm_compute; reflexivity|vm_compute; reflexivity].
 Qed.
 
 (* ------------------------------------------------------------------ rejection by class *)
@@ -368,4 +368,105 @@ Proof.
     destruct (narrow16 (widen32 s)); [eauto|].
     destruct H as [H|H]; [discriminate|contradiction]. }
   destruct K as (e & He & Hc). exists e. split; auto. apply scalar_head_err; try reflexivity. exact He.
+Qed.
+
+(* ------------------------------------------------------------------ the fuel never runs out *)
+Lemma bind_err {A B} (r : result A) (f : A -> result B) e :
+  bind r f = Err e -> r = Err e \/ exists a, r = Ok a /\ f a = Err e.
+Proof. destruct r as [a|e']; cbn; intros H; [right; eauto|left; congruence]. Qed.
+
+Lemma read_uint_not_fuel k r : read_uint k r <> Err EFuel.
+Proof. unfold read_uint. destruct (length r <? k)%nat; discriminate. Qed.
+
+Lemma read_len_not_fuel info r : read_len info r <> Err EFuel.
+Proof.
+  unfold read_len. intros H.
+  repeat match type of H with
+         | (if ?c then _ else _) = _ => destruct c
+         end; try discriminate;
+  (apply bind_err in H as [H|((v & r0) & _ & H)]; [exact (read_uint_not_fuel _ _ H)|];
+   match type of H with (if ?c then _ else _) = _ => destruct c end; discriminate).
+Qed.
+
+Lemma dec_scalar_not_fuel major info r : dec_scalar major info r <> Err EFuel.
+Proof.
+  unfold dec_scalar, dec_float16, dec_float32, dec_float64. intros H.
+  repeat match type of H with
+         | (if ?c then _ else _) = _ => destruct c
+         | match ?c with Some _ => _ | None => _ end = _ => destruct c
+         | bind (read_len _ _) _ = Err _ => apply bind_err in H as [H|((? & ?) & _ & H)]; [exact (read_len_not_fuel _ _ H)|]
+         | bind (read_uint _ _) _ = Err _ => apply bind_err in H as [H|((? & ?) & _ & H)]; [exact (read_uint_not_fuel _ _ H)|]
+         end; discriminate.
+Qed.
+
+Definition consumes_b (db : N -> bytes -> result (value * bytes * N)) : Prop :=
+  forall bud b v r bud', wf_bytes b = true -> db bud b = Ok (v, r, bud') -> (length r < length b)%nat /\ wf_bytes r = true.
+
+Lemma dec_value_b_consumes fuel depth : consumes_b (dec_value_b fuel depth).
+Proof.
+  intros bud b v r bud' Hwf H. apply dec_value_b_sim in H.
+  destruct (dec_value_consumes fuel depth _ _ _ Hwf H) as [L W]. split; auto. unfold lenN in L. lia.
+Qed.
+
+Lemma dec_seq_b_no_fuel db F :
+  (forall bud b, wf_bytes b = true -> (length b < F)%nat -> db bud b <> Err EFuel) -> consumes_b db ->
+  forall k n bud b, wf_bytes b = true -> (length b < k)%nat -> (length b < F)%nat -> dec_seq_b db k n bud b <> Err EFuel.
+Proof.
+  intros Hnf Hc. induction k as [|k IH]; intros n bud b Hwf Hk HF H; [lia|].
+  cbn [dec_seq_b] in H. destruct (n =? 0); [discriminate|].
+  apply bind_err in H as [H|(((v & b1) & bud1) & Hd & H)]; [exact (Hnf _ _ Hwf HF H)|].
+  destruct (Hc _ _ _ _ _ Hwf Hd) as [Hl Hw1].
+  apply bind_err in H as [H|(((vs & b2) & bud2) & _ & H)]; [|discriminate].
+  apply (IH (n - 1) bud1 b1 Hw1); auto; lia.
+Qed.
+
+Lemma dec_map_b_no_fuel db F :
+  (forall bud b, wf_bytes b = true -> (length b < F)%nat -> db bud b <> Err EFuel) -> consumes_b db ->
+  forall k n last bud b, wf_bytes b = true -> (length b < k)%nat -> (length b < F)%nat -> dec_map_b db k n last bud b <> Err EFuel.
+Proof.
+  intros Hnf Hc. induction k as [|k IH]; intros n last bud b Hwf Hk HF H; [lia|].
+  cbn [dec_map_b] in H. destruct (n =? 0); [discriminate|].
+  apply bind_err in H as [H|(((kv & b1) & bud1) & Hd & H)]; [exact (Hnf _ _ Hwf HF H)|].
+  destruct (Hc _ _ _ _ _ Hwf Hd) as [Hl Hw1].
+  apply bind_err in H as [H|([] & _ & H)].
+  { destruct last as [prev|]; [|discriminate].
+    destruct (bytes_cmp (firstn (length b - length b1) b) prev); discriminate. }
+  apply bind_err in H as [H|(((vv & b2) & bud2) & Hd2 & H)]; [apply (Hnf _ _ Hw1 ltac:(lia) H)|].
+  destruct (Hc _ _ _ _ _ Hw1 Hd2) as [Hl2 Hw2].
+  apply bind_err in H as [H|(((es & b3) & bud3) & _ & H)]; [|discriminate].
+  apply (IH (n - 1) (Some (firstn (length b - length b1) b)) bud2 b2 Hw2); auto; lia.
+Qed.
+
+Lemma dec_value_b_no_fuel : forall fuel depth bud b,
+  wf_bytes b = true -> (length b < fuel)%nat -> dec_value_b fuel depth bud b <> Err EFuel.
+Proof.
+  induction fuel as [|f IH]; intros depth bud b Hwf Hl H; [lia|].
+  cbn [dec_value_b] in H. destruct (MAX_DECODE_DEPTH <? depth); [discriminate|].
+  destruct b as [|b0 r]; [discriminate|].
+  apply wf_bytes_cons in Hwf as [Hb0 Hwr]. cbn [length] in Hl.
+  pose proof (head_info_lt b0) as Hinfo.
+  destruct (b0 / 32 =? 4).
+  { apply bind_err in H as [H|((n & r1) & Hr & H)]; [exact (read_len_not_fuel _ _ H)|].
+    destruct (read_len_inv _ _ _ _ Hwr Hinfo Hr) as (ext & -> & _).
+    apply wf_bytes_app_iff in Hwr as [_ Hw1]. rewrite app_length in Hl.
+    destruct (bud <? n); [discriminate|].
+    apply bind_err in H as [H|(((items & r2) & bud2) & _ & H)]; [|discriminate].
+    apply (dec_seq_b_no_fuel (dec_value_b f (depth + 1)) f (fun bd b W L => IH (depth + 1) bd b W L)
+             (dec_value_b_consumes f (depth + 1)) _ _ _ _ Hw1) in H; auto; lia. }
+  destruct (b0 / 32 =? 5).
+  { apply bind_err in H as [H|((n & r1) & Hr & H)]; [exact (read_len_not_fuel _ _ H)|].
+    destruct (read_len_inv _ _ _ _ Hwr Hinfo Hr) as (ext & -> & _).
+    apply wf_bytes_app_iff in Hwr as [_ Hw1]. rewrite app_length in Hl.
+    destruct (bud <? n); [discriminate|].
+    apply bind_err in H as [H|(((es & r2) & bud2) & _ & H)]; [|discriminate].
+    apply (dec_map_b_no_fuel (dec_value_b f (depth + 1)) f (fun bd b W L => IH (depth + 1) bd b W L)
+             (dec_value_b_consumes f (depth + 1)) _ _ _ _ _ Hw1) in H; auto; lia. }
+  apply bind_err in H as [H|((v & r1) & _ & H)]; [exact (dec_scalar_not_fuel _ _ _ H)|discriminate].
+Qed.
+
+Theorem decode_never_out_of_fuel b : wf_bytes b = true -> decode b <> Err EFuel.
+Proof.
+  intros Hwf H. unfold decode in H.
+  destruct (dec_value_b (S (length b)) 0 (lenN b) b) as [[[v [|x rest]] bud']|e] eqn:E; try discriminate.
+  inversion H; subst e. apply (dec_value_b_no_fuel _ _ _ _ Hwf (Nat.lt_succ_diag_r _) E).
 Qed.
